@@ -133,6 +133,8 @@ class Env(Engine):
     SECT = {
         "C12": ["ERR", "RAN", "CACHE", "AFTER"],
         "C13": ["LOAD", "VARS", "RUN", "CMDS"],
+        "C05": ["ERR", "RAN", "CACHE", "AFTER"],
+        "C19": ["ERR", "RAN", "CACHE", "AFTER"],
     }
 
     def compare_sections(self, prop):
@@ -194,7 +196,7 @@ class Env(Engine):
 
     def nontrivial_key(self, prop, rec):
         sec = _sections(rec[1])
-        if prop == "C12":
+        if prop in ("C12", "C05", "C19"):
             if sec.get("ERR") != "none" or sec.get("BEFORE") != sec.get("AFTER") or sec.get("CACHE0") != sec.get("CACHE"):
                 return rec[0]
             return None
@@ -211,7 +213,7 @@ class Env(Engine):
             return ["unparsable-case"]
         out.append("judged" if c["judge"] == "J" else "model-only")
         tasks = [s for s in c["stmts"] if s["k"] == "T"]
-        if prop == "C12":
+        if prop in ("C12", "C05", "C19"):
             out.append("outcome:" + sec.get("ERR", "?"))
             if any(_unhx(t["name"]) == "clean" for t in tasks):
                 out.append("has-clean-task")
@@ -269,6 +271,13 @@ class Env(Engine):
         return out
 
     def rule(self, prop):
+        if prop == "C05":
+            return ("env engine as extra engine of C05: `spok --clean` of the real binary on generated projects with OUTPUT globs (the C12 cases that have one, "
+                    "incl. hidden entries, meta-characters in the sandbox path and in file names, a spokfile that is a symbolic link into another directory): "
+                    "the tree afterwards is the tree before minus exactly the matching non-hidden entries (and the other designated outputs)")
+        if prop == "C19":
+            return ("env engine as extra engine of C19: `spok --clean` of the real binary on the C12 cases (literal, named and glob outputs, outputs that are "
+                    "symbolic links, protected targets, a user-defined clean task): the snapshot diff is exactly what the action allows")
         if prop == "C12":
             return ("corpus (D8 witnesses) + every pool element on its own against the full tree (literal, variable, join(...), glob outputs; "
                     "± clean task) + seeded random projects (random trees with files inside/outside outputs, nested, missing outputs, a sibling "
